@@ -45,7 +45,14 @@ def rank(kv):
 
 def term(op, kv):
     """Coq term for a case, or None when the case is outside what Eval.v covers"""
-    if any(k in kv for k in ("raw", "al", "fl", "fln", "fx", "fy", "rev", "low")):
+    if any(k in kv for k in ("al", "fl", "fln", "fx", "fy", "rev", "low")):
+        return None
+    if op in ("find", "rfind", "count") and kv.get("raw") == "1":
+        b = backend(kv)
+        if b is None or len(kv.get("h", "")) > 600:
+            return None
+        return f"ev_{op}_raw {b} {nlist(kv['ns'])} {int(kv.get('a', 0))} {nlist(kv.get('h', ''))} {int(kv['so'])} {int(kv['eo'])}"
+    if "raw" in kv:
         return None
     if op in ("find", "rfind", "count"):
         b = backend(kv)
